@@ -37,7 +37,7 @@ CHECKS['C19'] = {
              'arg-max engine (scan invariant over BESTC/ARGB), the maximum is recorded when positive, no other object and no other field changes '
              '(48 obligations incl. a syntactic frame obligation). Self-merge is decided by the bounded tier only.'),
     'note': ('Trusted: pyvc; get_confidences opaque (pure function of transcription/logits/characters/logit_coords); zip(*iterators) modelled as '
-             'position-wise tuples LINE(e,p); distinct line objects assumed in the unbounded contract (aliasing covered by the bounded self-merge cases). Bounded addition (round 16): incremental merges (merge(A, B), then the result with C) equal the single merge.'),
+             'position-wise tuples LINE(e,p); distinct line objects assumed in the unbounded contract (aliasing covered by the bounded self-merge cases). Bounded addition (round 16): incremental merges (merge(A, B), then the result with C) equal the single merge. Round 17: engines that group the same lines into regions differently.'),
 }
 
 CHECKS['C02'] = {
@@ -57,7 +57,7 @@ CHECKS['C02'] = {
              'prefix beam search, on every matrix with quarter-probability rows (T<=3, 3 classes, k in {1,2,3,1e6}, default and non-pruning selector).'),
     'note': ('Trusted: pyvc; numpy models (ravel/argpartition/unravel_index); assumed contract of the pre-selection callable; blank probability non-zero per frame; logaddexp is an '
              'uninterpreted commutative monotone function; the recurrences CTCB/CTCNB equal the log-sum over all alignments (validated against enumeration on every run, not proved); executable specs (alpha recursion validated against enumeration of all alignments), float '
-             'comparisons with 1e-6 tolerance; the numeric clauses are decided on the grid only.'),
+             'comparisons with 1e-6 tolerance; the numeric clauses are decided on the grid only. Bounded addition (round 17): one long-lived decoder that first decodes lines beginning with blank-only frames, then the shard\'s matrices.'),
 }
 CHECKS['C03'] = {
     'level': 'other',
@@ -70,7 +70,7 @@ CHECKS['C03'] = {
              'lm_sc equals the LM\'s own sum (+bonus, +eos), best_hyp maximises vis+scale*lm, confidence and returned state belong to it, scale 0 reproduces '
              'LM-free decoding (grid of C02 x scale x bonus x eos x init state).'),
     'note': ('Trusted: pyvc; assumed contracts of the LM object (item-wise, deterministic), of multisort.top_k and of the pre-selection; decoder proof for init_h = None; '
-             'build_boh opaque in the decoder proof; toy LM stands for all history-dependent LMs in the bounded tier; real LMWrapper (torch) not verified. Bounded additions (rounds 15/16): one long-lived decoder over text / blank-only / text / text per grid point; the torch LSTM behind the real LMWrapper has dropout and arrives in training mode.'),
+             'build_boh opaque in the decoder proof; toy LM stands for all history-dependent LMs in the bounded tier; real LMWrapper (torch) not verified. Bounded additions (rounds 15/16): one long-lived decoder over text / blank-only / text / text per grid point; the torch LSTM behind the real LMWrapper has dropout and arrives in training mode. Round 18: the same supplied start state handed in twice (beam widths 1 and k).'),
 }
 
 CHECKS['C04'] = {
@@ -83,7 +83,7 @@ CHECKS['C04'] = {
              'the collapse, in frame order.  BOUNDED, not proved: greedy_decode_ctc, PytorchEngineLineOCR.run_ocr (stub network) and '
              'GreedyDecoder equal the CTC collapse of the arg-max path for every arg-max path T<=5 (3 classes) / T<=3 (4 classes) in three score styles incl. '
              'exact ties, and for all batches of two paths T<=3; both decoders agree row by row.'),
-    'note': 'Trusted: pyvc; torch operations modelled as numpy (arg-max = first maximal index); that the two decoders agree (equal characterisations => equal lists) is bounded only. Bounded addition (round 16): a real PytorchEngineLineOCR built by its constructor from an OCR json (charsets where two classes share a symbol) around a TorchScript checkpoint with scripted scores.',
+    'note': 'Trusted: pyvc; torch operations modelled as numpy (arg-max = first maximal index); that the two decoders agree (equal characterisations => equal lists) is bounded only. Bounded addition (round 16): a real PytorchEngineLineOCR built by its constructor from an OCR json (charsets where two classes share a symbol) around a TorchScript checkpoint with scripted scores. Round 18: the same scores shifted by -30 (raw network output) with the normalisation guard off.',
 }
 CHECKS['C05'] = {
     'level': 'proof',
@@ -107,7 +107,7 @@ CHECKS['C16'] = {
              '(clip and masking structure); posteriors <= 0 and differ from total scores by one constant; confidence in (0,1]; transcript_confidence in [0,1]; '
              'line_confident_enough monotone in its threshold (relational proof over two runs). BOUNDED numeric: range, shift invariance, one-hot = 1, '
              'posteriors sum to 1 on a grid of matrices and on bag histories (query/add/re-weight/query).'),
-    'note': 'Trusted: pyvc; exp and logsumexp are uninterpreted with the listed axioms (A2: reals, no round-off); numpy row reductions opaque pure functions in the relational proof; "within round-off" clauses are numeric/bounded only. Bounded additions (round 16): the confident-line test as PageDecoder.decode_line applies it (threshold sweep incl. 0 / 0.0 / numpy 0); lines of 600-2100 logit frames (genuine defect fixed in c076aee).',
+    'note': 'Trusted: pyvc; exp and logsumexp are uninterpreted with the listed axioms (A2: reals, no round-off); numpy row reductions opaque pure functions in the relational proof; "within round-off" clauses are numeric/bounded only. Bounded additions (round 16): the confident-line test as PageDecoder.decode_line applies it (threshold sweep incl. 0 / 0.0 / numpy 0); lines of 600-2100 logit frames (genuine defect fixed in c076aee). Round 18: a line through the real process_lines (sparse storage) with one-hot network posteriors has confidence 1.',
 }
 
 CHECKS['C14'] = {
@@ -139,7 +139,7 @@ CHECKS['C08'] = {
              'length <= 3 x carry on/off x 5 thresholds equal the solo result; engine histories on one OCR engine; the real LMWrapper around a training-mode LSTM LM with '
              'dropout decodes one matrix three times identically. The multi-process schedule clause is NOT decided (no thread/process reasoning in this family).'),
     'note': ('Trusted: pyvc; decoder / LM / logits preparation are opaque pure functions (A6; frame scan shows LMWrapper assigns no attribute); module-level RNG '
-             'tie-breaks in layout stages are listed in the evidence, not proved absent; Pool.starmap scheduling outside the technique. Bounded addition (round 16): beam width 1 and a line / other line / line / line history through one decoder and LM wrapper.'),
+             'tie-breaks in layout stages are listed in the evidence, not proved absent; Pool.starmap scheduling outside the technique. Bounded addition (round 16): beam width 1 and a line / other line / line / line history through one decoder and LM wrapper. Round 18: resumed runs of the real parse_folder.main() (C17 harness, stub results depend on the page image).'),
 }
 
 CHECKS['C17'] = {
@@ -150,7 +150,7 @@ CHECKS['C17'] = {
              'kill point between writes; every guarded block writes its path; no division by zero at exit. BOUNDED: real main() + real writers killed in every gap between two '
              'writes, at both ends of the gap (next write about to start / previous write just completed; 1-2 crashes quick, up to 3 thorough) for representative / all output subsets and ids with dots: final tree equals the uninterrupted tree, '
              'complete pages not reprocessed, idle run exits cleanly; file-name -> id mapping exhaustive over names of length <= 5.'),
-    'note': 'Trusted: atomic file writes (kills between writes only); stub PageParser; the induction from the three per-call obligations to arbitrary crash/resume sequences is a pen-and-paper argument in DESIGN.md. Bounded addition (round 16): a kill inside an XML writer at the moment serialisation starts (position k + 0.5).',
+    'note': 'Trusted: atomic file writes (kills between writes only); stub PageParser; the induction from the three per-call obligations to arbitrary crash/resume sequences is a pen-and-paper argument in DESIGN.md. Bounded addition (round 16): a kill inside an XML writer at the moment serialisation starts (position k + 0.5). Round 18: stub results depend on the page image; idle run with --process-count 2 (Pool replaced by a sequential stand-in with the same constructor contract inside the daemonic check workers).',
 }
 
 CHECKS['C09'] = {
@@ -161,7 +161,7 @@ CHECKS['C09'] = {
              'for pruned ones. BOUNDED: save/load via path and bytes for 0..3 lines x 5 sparse matrices x charsets x coords, subset/superset/reordered targets, '
              'missing components reported and nothing written, legacy files, row-normalised log-probabilities, PAGE XML + logits rebuild gives the same greedy '
              'text and ALTO words. _gen_logits is bounded only.'),
-    'note': 'Trusted: pyvc; pickle and scipy.sparse (A6); slice mode starts at the loop with arbitrary dictionaries; precondition: no stored entry is exactly 0.0.',
+    'note': 'Trusted: pyvc; pickle and scipy.sparse (A6); slice mode starts at the loop with arbitrary dictionaries; precondition: no stored entry is exactly 0.0. Round 17: dense / log-probability clauses also for floors -50, -30, -12.5.',
 }
 
 CHECKS['C06'] = {
@@ -176,7 +176,7 @@ CHECKS['C06'] = {
              'margins tile the page up to integer truncation; re-import gives the same words - for 20 transcriptions (blank/NBSP/tab/thin/ideographic/zero-width spaces, '
              'out-of-charset, Arabic/Latin) x 5 logits kinds x structures. _reverse is a permutation and an involution on all strings of length <= 5 (6) over 9 symbols.'),
     'note': ('Trusted: pyvc; slice mode drops the XML construction and the per-line loop of the block loop after a syntactic non-interference check; get_hwvh assumed to return '
-             'non-negative extents; lxml, crop engine for word boxes (C10), CPython str.split/isspace; the text clauses are decided on the grid only. Bounded additions (round 16): Arabic-script lines with mixed-script / delimiter-edged words; pages with a line of 1040 / 1300 logit frames (genuine defect fixed in c076aee).'),
+             'non-negative extents; lxml, crop engine for word boxes (C10), CPython str.split/isspace; the text clauses are decided on the grid only. Bounded additions (round 16): Arabic-script lines with mixed-script / delimiter-edged words; pages with a line of 1040 / 1300 logit frames (genuine defect fixed in c076aee). Round 18: lines carrying a stored confidence (0 / 1) export the same lines for min_line_confidence > 0.'),
 }
 CHECKS['C07'] = {
     'level': 'other',
@@ -199,7 +199,7 @@ CHECKS['C12'] = {
              'unchanged as shapes, on 0..2 boxes over a 50 px grid (incl. degenerate, identical), strided triples/quadruples, hand-picked nested / mutually overlapping / grid / '
              'column layouts, with and without de-skew. PROVED: NaiveRegionSorter.process_page calls the clustering with >= 1 sample (guard for < 2 regions) and rebuilds '
              'page.regions by indexing the old list with the returned order.'),
-    'note': 'Trusted: sklearn DBSCAN, shapely, cv2; sort_regions has an ASSUMED contract (permutation of range(n)) backed by the bounded tier only; SmartRegionSorter recursion has no variant. Bounded addition (round 16): pages with integer coordinate arrays and a clear slant.',
+    'note': 'Trusted: sklearn DBSCAN, shapely, cv2; sort_regions has an ASSUMED contract (permutation of range(n)) backed by the bounded tier only; SmartRegionSorter recursion has no variant. Bounded addition (round 16): pages with integer coordinate arrays and a clear slant. Round 18: staircase tilings nested 13 / 16 levels deep.',
 }
 
 CHECKS['C11'] = {
@@ -208,7 +208,7 @@ CHECKS['C11'] = {
     'text': ('PROVED: the pre-filter of assign_lines_to_regions marks every (line, region) pair whose boxes overlap with positive area and rejects pairs separated along both axes. '
              'BOUNDED: placed baselines inside the region and pieces of the detected baseline, outline clipped, inside lines unchanged, untouched never placed, longest piece kept, '
              'ids distinct - on 6 rectilinear regions (singly/pairs/all) x 44 baselines; LayoutExtractor.process_page x detect-regions x multi-orientation x merge-lines gives distinct ids.'),
-    'note': 'Trusted: shapely semantics (A6); float32 rounding of boxes (A2); continuous geometry beyond the grid is not decided. Bounded additions (rounds 15/16): detector whose first line no region takes and whose orientations report different numbers of lines (16 option combinations); lines assigned again to a region object after its polygon was replaced.',
+    'note': 'Trusted: shapely semantics (A6); float32 rounding of boxes (A2); continuous geometry beyond the grid is not decided. Bounded additions (rounds 15/16): detector whose first line no region takes and whose orientations report different numbers of lines (16 option combinations); lines assigned again to a region object after its polygon was replaced. Round 18: lines-only extractors process the layout twice.',
 }
 
 CHECKS['C10'] = {
@@ -223,7 +223,7 @@ CHECKS['C10'] = {
              'descender and perpendicular to the baseline, fast path == general path, shift equivariance, no blank fallback for non-degenerate baselines in orders 0/1/2; degenerate '
              'lines fall back to a blank image of the configured height, never an error - on integer baselines of 2..5 points x steps x slopes (within 60 degrees) x offsets x size '
              'variants, plus an arc and an S-shaped baseline; every line cropped twice with float64-array heights: line left unchanged, same map each time.'),
-    'note': 'Trusted: pyvc; numba object-mode jit; cv2.remap, scipy/numpy interpolation (A6); continuous geometry beyond the grid is not decided; trigonometry is not reasoned about.',
+    'note': 'Trusted: pyvc; numba object-mode jit; cv2.remap, scipy/numpy interpolation (A6); continuous geometry beyond the grid is not decided; trigonometry is not reasoned about. Round 18: LineCropper.process_page on a page cropped before, after a line was moved.',
 }
 CHECKS['C18'] = {
     'level': 'other',
@@ -232,7 +232,7 @@ CHECKS['C18'] = {
              'one pixel of their exact pre-image under np.rot90, all three lists consistently. BOUNDED numeric: parse() gives one line per ridge with end points within 3 ds, vertical '
              'position within ~1.5 ds, heights = map x ds and each line its own heights, on synthetic maps (1-3 ridges, lengths 6/20/60, slopes 0/+-0.1 plus pairs of slope +-0.25 with overlapping bounding boxes, end-point responses on/off, '
              'ds 1/2/4/8); detect() with a stub network returns original-image coordinates for rot 0..3 on a non-square page.'),
-    'note': 'Trusted: np.rot90 axiom, scipy.ndimage / shapely / cv2 (A6); lists of length one in the rotation proof (the code treats list elements independently); ridge decoding beyond the grid not decided. Bounded addition (round 16): the real TorchParseNet.get_maps_with_optimal_resolution with a recording get_maps over page histories on one long-lived object: the returned factor is the one the returned maps were computed with.',
+    'note': 'Trusted: np.rot90 axiom, scipy.ndimage / shapely / cv2 (A6); lists of length one in the rotation proof (the code treats list elements independently); ridge decoding beyond the grid not decided. Bounded addition (round 16): the real TorchParseNet.get_maps_with_optimal_resolution with a recording get_maps over page histories on one long-lived object: the returned factor is the one the returned maps were computed with. Round 18: baseline_to_textline commutes with rotations by 90 / 180 / 270 degrees.',
 }
 
 NOT_APPLICABLE = {
